@@ -50,6 +50,9 @@ struct Q {
     Q operator+() const { return *this; }
     explicit operator double() const { return v.get_d(); }
     explicit operator float() const { return (float)v.get_d(); }
+    // truncating integer conversions (additive, C06): ilut.hpp does static_cast<size_t>/<int>(len * prm.p) with scalar_type p
+    explicit operator unsigned long() const { mpz_class t; mpz_tdiv_q(t.get_mpz_t(), v.get_num_mpz_t(), v.get_den_mpz_t()); return t.get_ui(); }
+    explicit operator int() const { mpz_class t; mpz_tdiv_q(t.get_mpz_t(), v.get_num_mpz_t(), v.get_den_mpz_t()); return (int)t.get_si(); }
     std::string str() const { return poison ? std::string("POISON") : v.get_str(); }
 };
 #define VQ_OP(op) \
